@@ -76,6 +76,48 @@ func genChainWorldTP(t *rapid.T, prop string, opts SetGenOpts, extra func(t *rap
 	return sc
 }
 
+// genC01RecreatedPhase: a directed family: a revision with delegated phases is rolled out, a third party deletes one of its
+// ObjectSetPhase objects (PKO restores it under the same name, with a new uid), then a successor declaring it as previous
+// arrives and has to take over the objects now controlled by the restored phase object.
+func genC01RecreatedPhase(t *rapid.T) *Scenario {
+	sc := &Scenario{Prop: "C01"}
+	s0 := GenSet(t, SetGenOpts{AllowClass: true, Classes: []string{engine.ClassDefault}, PoolSize: 4, MaxObjs: 2, MaxPhases: 2})
+	for i := range s0.Phases {
+		if rapid.IntRange(0, 3).Draw(t, "delegate") > 0 {
+			s0.Phases[i].Class = engine.ClassDefault
+		}
+	}
+	s0.Probes = nil
+	sc.Steps = append(sc.Steps, Step{Op: "createSet", Set: &s0}, Step{Op: "quiesce"})
+	for i := rapid.IntRange(1, 2).Draw(t, "ndelete"); i > 0; i-- {
+		sc.Steps = append(sc.Steps, Step{Op: "tpDeletePhase", I: rapid.IntRange(0, 3).Draw(t, "phase")})
+		if rapid.IntRange(0, 3).Draw(t, "settle") > 0 {
+			sc.Steps = append(sc.Steps, Step{Op: "quiesce"})
+		}
+	}
+	s1 := s0
+	s1.Phases = nil
+	for _, ph := range s0.Phases {
+		p2 := ph
+		p2.Class = rapid.SampledFrom([]string{"", engine.ClassDefault}).Draw(t, "class1")
+		p2.Objs = nil
+		for _, o := range ph.Objs {
+			o.Variant++
+			o.CP = rapid.SampledFrom(allCPs).Draw(t, "cp1")
+			p2.Objs = append(p2.Objs, o)
+		}
+		s1.Phases = append(s1.Phases, p2)
+	}
+	s1.Previous = []int{0}
+	sc.Steps = append(sc.Steps, Step{Op: "createSet", Set: &s1})
+	ctrls := []string{engine.CtrlObjectSet, engine.CtrlObjectSet, engine.CtrlObjectSetPhase}
+	for i := rapid.IntRange(0, 6).Draw(t, "nrec"); i > 0; i-- {
+		sc.Steps = append(sc.Steps, GenReconcile(t, ctrls))
+	}
+	sc.Steps = append(sc.Steps, Step{Op: "quiesce"})
+	return sc
+}
+
 func TestC01(t *testing.T) {
 	st := NewStats("C01", "engine", "scenario = 1-3 hand-made ObjectSets (local/delegated phases incl. the annotation-strategy phase controller, all collisionProtection values, previous links, forced adoption on/off) + third parties creating/re-owning/relabelling pool objects between passes; non-trivial = a pass observed an existing object not controlled by its owner")
 	opts := SetGenOpts{AllowClass: true, Classes: []string{engine.ClassDefault, engine.ClassDefault, engine.ClassRemote}, CPs: allCPs, PoolSize: 5, MaxObjs: 2, MaxPhases: 3}
@@ -86,7 +128,27 @@ func TestC01(t *testing.T) {
 	CheckOrReplay(t, st, func(data []byte) (any, error) {
 		return ReplayScenario(data, func(sc *Scenario) *Runner { r, _ := mk(sc); return r })
 	}, func(rt *rapid.T) {
-		sc := genChainWorld(rt, "C01", opts, nil)
+		// (a third party deleting an ObjectSetPhase object: PKO restores it under the same name with a new uid, and later
+		// revisions have to recognise the restored phase object as part of their predecessor)
+		if rapid.IntRange(0, 7).Draw(rt, "family") == 0 {
+			sc := genC01RecreatedPhase(rt)
+			r, m := mk(sc)
+			err := r.Run()
+			st.Count("passes", int64(len(r.W.Passes)))
+			for d, n := range m.Decisions {
+				st.Count("decision:"+d, int64(n))
+			}
+			st.Case(sc, r.Labels["c01-observed-foreign"], append(r.LabelList(), "family-recreated-phase")...)
+			st.Report(rt, sc, err)
+			return
+		}
+		sc := genChainWorld(rt, "C01", opts, func(t *rapid.T, sc *Scenario) {
+			if rapid.Bool().Draw(t, "deletePhase") {
+				sc.Steps = append(sc.Steps, Step{Op: "tpDeletePhase", I: rapid.IntRange(0, 3).Draw(t, "phase")}, Step{Op: "quiesce"})
+				return
+			}
+			sc.Steps = append(sc.Steps, Step{Op: "quiesce"})
+		})
 		r, m := mk(sc)
 		err := r.Run()
 		st.Count("passes", int64(len(r.W.Passes)))
